@@ -4,3 +4,6 @@ import CprocVerif.Props.C16
 import CprocVerif.Props.C03
 import CprocVerif.Props.C20
 import CprocVerif.Props.C17
+import CprocVerif.Props.C04
+import CprocVerif.Props.C19
+import CprocVerif.Props.C20
